@@ -225,7 +225,7 @@ fn dict_shape_run<K: El, V: El, const N: usize>(name: &str, universe: &[K], vals
         let k = universe[rng.below(universe.len())].clone();
         let v = vals[rng.below(vals.len())].clone();
         let pos = r.iter().position(|(a, _)| *a == k);
-        let opn = rng.below(16);
+        let opn = rng.below(17);
         let m = &mut g.v;
         let mut bad: Option<String> = None;
         let mut expect = |ok: bool, what: String| { if !ok && bad.is_none() { bad = Some(what); } };
@@ -266,9 +266,21 @@ fn dict_shape_run<K: El, V: El, const N: usize>(name: &str, universe: &[K], vals
                     let [a, b] = m.get_disjoint_mut([&k, &k2]);
                     expect(a.is_some() == pos.is_some() && b.is_some() == p2.is_some(), format!("get_disjoint_mut([{:?}, {:?}]) presence ({}, {})", k, k2, a.is_some(), b.is_some()));
                     if let (Some(x), Some(i)) = (a, pos) { expect(*x == r[i].1, format!("get_disjoint_mut gives {:?} for {:?}", x, k)); *x = v.clone(); r[i].1 = v; } } }
-            14 => { let n = m.values_mut().map(|x| *x = v.clone()).count(); expect(n == r.len(), format!("values_mut yields {} of {}", n, r.len())); for p in r.iter_mut() { p.1 = v.clone(); } }
-            _ => { let ks: Vec<K> = m.keys().cloned().collect(); let c: Map<K, V, N> = m.iter().map(|(a, b)| (a.clone(), b.clone())).collect();
+            14 => { let n = m.values_mut().map(|x| *x = v.clone()).count(); expect(n == r.len(), format!("values_mut yields {} of {}", n, r.len())); for p in r.iter_mut() { p.1 = v.clone(); }
+                    // every mutable iterator kind, by every way of counting
+                    let want = r.len();
+                    let lens = catch_unwind(AssertUnwindSafe(|| (m.iter_mut().len(), m.iter_mut().size_hint(), m.values_mut().len(), m.values_mut().size_hint())));
+                    expect(lens.as_ref().ok() == Some(&(want, (want, Some(want)), want, (want, Some(want)))), format!("len / size_hint of iter_mut / values_mut on {} entries: {:?}", want, lens.ok()));
+                    let mut a = 0; for (_, x) in m.iter_mut() { *x = v.clone(); a += 1; }
+                    let mut b = 0; for (_, x) in &mut *m { *x = v.clone(); b += 1; }
+                    let c = m.iter_mut().count(); let mut d = 0; let mut it = m.iter_mut(); while it.next().is_some() { d += 1; }
+                    let mut e = 0; for _ in &*m { e += 1; }
+                    expect(a == want && b == want && c == want && d == want && e == want, format!("iter_mut / &mut map / count / next-loop / &map visit {} {} {} {} {} of {} entries", a, b, c, d, e, want)); }
+            15 => { let ks: Vec<K> = m.keys().cloned().collect(); let c: Map<K, V, N> = m.iter().map(|(a, b)| (a.clone(), b.clone())).collect();
                    expect(ks.len() == r.len() && c == *m, "collect of the map's own entries differs from it".to_string()); }
+            // fill the container to the brim (high fill levels, hits at high slot indices: block-wise or masked code)
+            _ => { let off = rng.below(universe.len()); for j in 0..universe.len() { let u = &universe[(off + j) % universe.len()];
+                   if r.len() >= N { break; } if !r.iter().any(|(a, _)| a == u) { r.push((u.clone(), v.clone())); let got = m.insert(u.clone(), v.clone()); expect(got.is_none(), format!("insert({:?}) of a new key returned {:?}", u, got)); } } }
         }
         let bad = bad.or_else(|| if N <= 16 || step % 8 == 0 { map_agrees(&g.v, &r, universe).err() } else if g.v.len() != r.len() { Some(format!("len {} but the reference holds {}", g.v.len(), r.len())) } else { None });
         if let Some(what) = bad { fault(format!("op=shapes SHAPE_DICT {} Map<_,_,{}> step {} (operation kind {}): {}", name, N, step, opn, what)); return; }
@@ -302,7 +314,7 @@ fn set_shape_run<T: El, const N: usize, const M: usize>(name: &str, universe: &[
     for step in 0..(if cfg!(miri) { 70 + N.min(40) } else { 400 + 12 * N }) {
         let x = universe[rng.below(universe.len())].clone();
         let pos = r.iter().position(|a| *a == x);
-        let opn = rng.below(12);
+        let opn = rng.below(13);
         let s = &mut g.v;
         let mut bad: Option<String> = None;
         let mut expect = |ok: bool, what: String| { if !ok && bad.is_none() { bad = Some(what); } };
@@ -326,9 +338,13 @@ fn set_shape_run<T: El, const N: usize, const M: usize>(name: &str, universe: &[
                    let mut overflow = false; for e in items.iter() { if r.contains(e) { continue; } if r.len() < N { r.push(e.clone()); } else { overflow = true; break; } }
                    let p = catch_unwind(AssertUnwindSafe(|| s.extend(items.clone()))); expect(p.is_err() == overflow, format!("extend({:?}) panicked: {}, the reference overflows: {}", items, p.is_err(), overflow)); }
             10 => { let c = s.clone(); expect(c == *s, "the clone differs from the original".to_string()); let all: Vec<T> = c.into_iter().collect(); expect(all.len() == r.len() && r.iter().all(|e| all.contains(e)), format!("into_iter of the clone yields {:?}", all)); }
+            12 => { let off = rng.below(universe.len()); for j in 0..universe.len() { let u = &universe[(off + j) % universe.len()];
+                    if r.len() >= N { break; } if !r.contains(u) { r.push(u.clone()); expect(s.insert(u.clone()), format!("insert({:?}) of a new element returned false", u)); } } }
             _ => {
                 let mut other: Set<T, M> = Set::new(); let mut o: Vec<T> = Vec::new();
                 for _ in 0..rng.below(M + 1) { let e = universe[rng.below(universe.len())].clone(); if !o.contains(&e) { o.push(e.clone()); other.insert(e); } }
+                if rng.below(3) == 0 { let off = rng.below(universe.len()); for j in 0..universe.len() { let u = &universe[(off + j) % universe.len()];
+                    if o.len() >= M { break; } if !o.contains(u) { o.push(u.clone()); other.insert(u.clone()); } } }
                 let same = |got: Vec<&T>, want: Vec<&T>| got.len() == want.len() && want.iter().all(|e| got.iter().filter(|a| **a == *e).count() == 1);
                 let uni: Vec<&T> = r.iter().chain(o.iter().filter(|e| !r.contains(e))).collect();
                 let int: Vec<&T> = r.iter().filter(|e| o.contains(e)).collect();
@@ -455,6 +471,115 @@ fn serde_shapes() {
         match serde_json::from_str::<Map<u32, Set<u32, 3>, 2>>(&txt) { Ok(b) if b == nested => {}, other => fault(format!("op=shapes SERDE_SHAPE nested {} reads back as {:?}", txt, other)) }
     });
     if r.is_err() { fault("op=shapes SERDE_SHAPE the serde scenario panicked".into()); }
+    if catch_unwind(strict_stream_shapes).is_err() { fault("op=shapes SERDE_SHAPE the strict-stream serde scenario panicked".into()); }
+}
+
+// A STREAMING data format (indefinite-length CBOR, a token stream): no size hint, and the access object may be
+// polled until it answers None ONCE -- serde does not promise that a further poll is harmless (here it is an
+// error and is counted).  Decoding must consume the stream exactly to its end and yield exactly its entries,
+// for every relation between the number of entries and the target capacity.
+struct StrictState { pos: std::cell::Cell<usize>, ended: std::cell::Cell<bool>, late_polls: std::cell::Cell<u32>, fail_at: Option<usize>, fail_value_at: Option<usize> }
+struct StrictDe<'a> { items: &'a [u32], map: bool, st: &'a StrictState }
+struct StrictAcc<'a> { items: &'a [u32], st: &'a StrictState }
+impl<'a> StrictAcc<'a> {
+    fn pull(&mut self) -> Result<Option<u32>, serde::de::value::Error> {
+        if self.st.ended.get() { self.st.late_polls.set(self.st.late_polls.get() + 1); return Err(serde::de::Error::custom("polled after the end")); }
+        let p = self.st.pos.get();
+        if self.st.fail_at == Some(p) { return Err(serde::de::Error::custom("the stream is broken here")); }
+        if p == self.items.len() { self.st.ended.set(true); return Ok(None); }
+        self.st.pos.set(p + 1);
+        Ok(Some(self.items[p]))
+    }
+}
+impl<'de, 'a> serde::de::SeqAccess<'de> for StrictAcc<'a> {
+    type Error = serde::de::value::Error;
+    fn next_element_seed<T: serde::de::DeserializeSeed<'de>>(&mut self, seed: T) -> Result<Option<T::Value>, Self::Error> {
+        use serde::de::IntoDeserializer;
+        match self.pull()? { None => Ok(None), Some(x) => seed.deserialize(x.into_deserializer()).map(Some) }
+    }
+}
+impl<'de, 'a> serde::de::MapAccess<'de> for StrictAcc<'a> {
+    type Error = serde::de::value::Error;
+    fn next_key_seed<T: serde::de::DeserializeSeed<'de>>(&mut self, seed: T) -> Result<Option<T::Value>, Self::Error> {
+        use serde::de::IntoDeserializer;
+        match self.pull()? { None => Ok(None), Some(x) => seed.deserialize(x.into_deserializer()).map(Some) }
+    }
+    fn next_value_seed<T: serde::de::DeserializeSeed<'de>>(&mut self, seed: T) -> Result<T::Value, Self::Error> {
+        use serde::de::IntoDeserializer;
+        let k = self.items[self.st.pos.get() - 1];
+        if self.st.fail_value_at == Some(self.st.pos.get() - 1) { return Err(serde::de::Error::custom("the stream is broken at this value")); }
+        seed.deserialize((k + 1000).into_deserializer())
+    }
+}
+impl<'de, 'a> serde::Deserializer<'de> for StrictDe<'a> {
+    type Error = serde::de::value::Error;
+    fn deserialize_any<V: serde::de::Visitor<'de>>(self, v: V) -> Result<V::Value, Self::Error> {
+        if self.map { v.visit_map(StrictAcc { items: self.items, st: self.st }) } else { v.visit_seq(StrictAcc { items: self.items, st: self.st }) }
+    }
+    serde::forward_to_deserialize_any! { bool i8 i16 i32 i64 i128 u8 u16 u32 u64 u128 f32 f64 char str string bytes byte_buf option unit
+        unit_struct newtype_struct seq tuple tuple_struct map struct enum identifier ignored_any }
+}
+impl<'de> serde::Deserialize<'de> for D {
+    fn deserialize<De: serde::Deserializer<'de>>(d: De) -> Result<D, De::Error> { <u32 as serde::Deserialize>::deserialize(d).map(|x| D(if x >= 1000 { x - 1000 + 1 } else { x })) }
+}
+fn strict_stream_shapes() {
+    use serde::Deserialize;
+    fn set_case<const M: usize>(items: &[u32]) {
+        let st = StrictState { pos: 0.into(), ended: false.into(), late_polls: 0.into(), fail_at: None, fail_value_at: None };
+        let r = Set::<u32, M>::deserialize(StrictDe { items, map: false, st: &st });
+        let ok = matches!(&r, Ok(s) if s.len() == items.len() && items.iter().all(|x| s.contains(x)));
+        if !ok || st.late_polls.get() != 0 || !st.ended.get() {
+            fault(format!("op=shapes SERDE_SHAPE a stream of {} elements decoded into Set<u32,{}>: result {:?}, polls after the end of the stream {}, stream consumed to its end {}", items.len(), M, r.as_ref().map(|s| s.len()), st.late_polls.get(), st.ended.get()));
+        }
+    }
+    fn map_case<const M: usize>(items: &[u32]) {
+        let st = StrictState { pos: 0.into(), ended: false.into(), late_polls: 0.into(), fail_at: None, fail_value_at: None };
+        let r = Map::<u32, u32, M>::deserialize(StrictDe { items, map: true, st: &st });
+        let ok = matches!(&r, Ok(m) if m.len() == items.len() && items.iter().all(|x| m.get(x) == Some(&(x + 1000))));
+        if !ok || st.late_polls.get() != 0 || !st.ended.get() {
+            fault(format!("op=shapes SERDE_SHAPE a stream of {} entries decoded into Map<u32,u32,{}>: result {:?}, polls after the end of the stream {}, stream consumed to its end {}", items.len(), M, r.as_ref().map(|m| m.len()), st.late_polls.get(), st.ended.get()));
+        }
+    }
+    // a stream that breaks at entry k: decoding reports the error, and every element built before it is destroyed
+    // exactly once (keys 0,2,4.. and values 1001,1003,..: the ledger is indexed by 2*i and 2*i+1 below)
+    let keys = [0u32, 2, 4, 6];
+    for k in 0..=4usize {
+        for value_side in [false, true] {
+            if value_side && k == 4 { continue; }
+            ledger_reset();
+            let st = StrictState { pos: 0.into(), ended: false.into(), late_polls: 0.into(), fail_at: if value_side { None } else { Some(k) }, fail_value_at: if value_side { Some(k) } else { None } };
+            let r = Map::<D, D, 6>::deserialize(StrictDe { items: &keys, map: true, st: &st });
+            let built = if value_side { 2 * k as u32 + 1 } else { 2 * k as u32 };
+            if r.is_ok() { fault(format!("op=shapes SERDE_SHAPE a map stream that breaks at entry {} ({}) decodes to Ok", k, if value_side { "value" } else { "key" })); }
+            drop(r);
+            ledger_ok(built, &format!("Map<D,D,6> decoded from a stream that breaks at the {} of entry {}", if value_side { "value" } else { "key" }, k));
+        }
+        ledger_reset();
+        let st = StrictState { pos: 0.into(), ended: false.into(), late_polls: 0.into(), fail_at: Some(k), fail_value_at: None };
+        let ids = [0u32, 1, 2, 3];
+        let r = Set::<D, 5>::deserialize(StrictDe { items: &ids, map: false, st: &st });
+        if r.is_ok() { fault(format!("op=shapes SERDE_SHAPE a sequence stream that breaks at element {} decodes to Ok", k)); }
+        drop(r);
+        ledger_ok(k as u32, &format!("Set<D,5> decoded from a stream that breaks at element {}", k));
+    }
+    // a sink that fails after k bytes: serialization reports the error (no panic), the container is untouched
+    struct Failing(usize);
+    impl std::io::Write for Failing {
+        fn write(&mut self, b: &[u8]) -> std::io::Result<usize> { if self.0 == 0 { return Err(std::io::Error::new(std::io::ErrorKind::Other, "sink full")); } let n = b.len().min(self.0); self.0 -= n; Ok(n) }
+        fn flush(&mut self) -> std::io::Result<()> { Ok(()) }
+    }
+    let m: Map<u32, u32, 4> = [(1u32, 10u32), (2, 20), (3, 30)].into_iter().collect();
+    let s: Set<u32, 4> = [1u32, 2, 3].into_iter().collect();
+    let (lm, ls) = (serde_json::to_string(&m).unwrap().len(), serde_json::to_string(&s).unwrap().len());
+    for k in 0..lm { if serde_json::to_writer(Failing(k), &m).is_ok() { fault(format!("op=shapes SERDE_SHAPE serializing a map into a sink that fails after {} bytes reports success", k)); } }
+    for k in 0..ls { if serde_json::to_writer(Failing(k), &s).is_ok() { fault(format!("op=shapes SERDE_SHAPE serializing a set into a sink that fails after {} bytes reports success", k)); } }
+    if m.len() != 3 || s.len() != 3 { fault("op=shapes SERDE_SHAPE serialization changed the container".into()); }
+    let all = [5u32, 6, 7, 8, 9, 10];
+    for n in 0..=4usize {
+        let items = &all[..n];
+        macro_rules! caps { ($($m:literal),*) => { $( if $m >= n { set_case::<$m>(items); map_case::<$m>(items); } )* } }
+        caps!(0, 1, 2, 3, 4, 5, 8, 17);
+    }
 }
 
 // Debug of containers whose entries have structured (multi-line, flag-sensitive) renderings must be
